@@ -26,7 +26,13 @@ Pipelines: `combine_globally(PriorityReservoir, None)` = per-partition fold, one
 in partition order, `finish`; `group_by_key().combine_values_lifted(..)` is rewritten by the planner to the
 classic per-pair local (`lift_gbk_then_combine`), then merged per key in partition order starting from a
 fresh `create()`. `std::HashMap` = insertion-ordered association list; keyed outputs are compared after a
-stable sort by key.
+stable sort by key. Each of the four entry points has its own definition: `sampleSeq`/`samplePar`
+(`sample_reservoir_vec`), `sampleFlatSeq`/`sampleFlatPar` (`sample_reservoir` = the `Vec` row put through the
+trailing `flat_map`), `sampleKeyedSeq`/`sampleKeyedPar` (`sample_values_reservoir_vec`) and `flattenKeyed` of
+those (`sample_values_reservoir`). `sampleParts` is the global sample over an arbitrary list of partitions;
+`sampleFilter*` / `sampleKeyedFilter*` put a `filter` between the source and the sample: `exec_par` splits the
+SOURCE (`partsOf n xs`) and runs the stateless op inside every partition, so the combiner sees skewed or
+empty partitions.
 -/
 namespace IB.Sampling
 
@@ -207,6 +213,34 @@ def sampleSeq {V A O : Type} (c : Combiner V A O) (xs : List V) : O :=
 def samplePar {V A O : Type} (c : Combiner V A O) (n : Nat) (xs : List V) : O :=
   c.finish (mergeAll c ((partsOf n xs).map (c.foldAdd c.create)))
 
+/-- the global sample over an **arbitrary** list of partitions (possibly empty or skewed ones, as left behind
+    by a per-partition `filter` upstream): per-partition fold, one `merge` of all accumulators in partition
+    order, `finish`.  `samplePar c n xs = sampleParts c (partsOf n xs)` by `rfl`. -/
+def sampleParts {V A O : Type} (c : Combiner V A O) (ps : List (List V)) : O :=
+  c.finish (mergeAll c (ps.map (c.foldAdd c.create)))
+
+/-- the flattening `flat_map(|v| v.clone())` of `sample_reservoir` over the rows of the `Vec` form -/
+def flattenGlobal {V : Type} (rows : List (List V)) : List V := rows.flatMap (fun v => v)
+
+/-- `sample_reservoir(..).collect_seq()`: the single `Vec` row of `sample_reservoir_vec`, flattened -/
+def sampleFlatSeq {V A : Type} (c : Combiner V A (List V)) (xs : List V) : List V :=
+  flattenGlobal [sampleSeq c xs]
+
+/-- `sample_reservoir(..).collect_par(_, Some n)`: after the global combine there is one partition holding
+    the one `Vec` row; the `flat_map` runs on it -/
+def sampleFlatPar {V A : Type} (c : Combiner V A (List V)) (n : Nat) (xs : List V) : List V :=
+  flattenGlobal [samplePar c n xs]
+
+/-- `from_vec(xs).filter(p).sample_reservoir_vec(..).collect_seq()` -/
+def sampleFilterSeq {V A O : Type} (c : Combiner V A O) (p : V → Bool) (xs : List V) : O :=
+  sampleSeq c (xs.filter p)
+
+/-- `from_vec(xs).filter(p).sample_reservoir_vec(..).collect_par(_, Some n)`: the source is split first
+    (`partsOf n xs`, sizes from the UNfiltered length), the stateless `filter` runs inside every partition,
+    then the per-partition folds are merged — partitions may be skewed or empty -/
+def sampleFilterPar {V A O : Type} (c : Combiner V A O) (n : Nat) (p : V → Bool) (xs : List V) : O :=
+  sampleParts c ((partsOf n xs).map (List.filter p))
+
 /-- the left comb `mergeAll` walks: `((p0 ⋈ p1) ⋈ p2) ⋈ …` -/
 def combTree (p : List α) (ps : List (List α)) : Tree α :=
   ps.foldl (fun t q => .node t (.leaf q)) (.leaf p)
@@ -239,6 +273,17 @@ def sampleKeyedSeq {V A O : Type} (c : Combiner V A O) (rows : List (κ × V)) :
 /-- `sample_values_reservoir_vec(..).collect_par(_, Some n)` -/
 def sampleKeyedPar {V A O : Type} (c : Combiner V A O) (n : Nat) (rows : List (κ × V)) : List (κ × O) :=
   mergeMaps c ((partsOf n rows).map (localPairs c))
+
+/-- `from_vec(rows).filter(p).sample_values_reservoir_vec(..).collect_seq()` -/
+def sampleKeyedFilterSeq {V A O : Type} (c : Combiner V A O) (p : κ × V → Bool) (rows : List (κ × V)) :
+    List (κ × O) :=
+  sampleKeyedSeq c (rows.filter p)
+
+/-- `from_vec(rows).filter(p).sample_values_reservoir_vec(..).collect_par(_, Some n)`: split, filter inside
+    every partition, per-partition `local_pairs`, keyed merge -/
+def sampleKeyedFilterPar {V A O : Type} (c : Combiner V A O) (n : Nat) (p : κ × V → Bool)
+    (rows : List (κ × V)) : List (κ × O) :=
+  mergeMaps c (((partsOf n rows).map (List.filter p)).map (localPairs c))
 
 /-- the flattening `flat_map` of `sample_values_reservoir` -/
 def flattenKeyed {V : Type} (rows : List (κ × List V)) : List (κ × V) :=
